@@ -17,7 +17,7 @@ Hypotheses used below (all decidable on a concrete history, see the examples at 
 * `(run ops).evicted = []` — the orphan pool never overflowed its bound of 100 (an evicted orphan was
                            delivered but is forgotten by design; wall-clock expiry is not modelled).
 -/
-import BV.C02.Lemmas7
+import BV.C02.Lemmas8
 import BV.Generated.C02
 namespace BV.C02
 open Spec Lemmas
@@ -30,6 +30,12 @@ chain of delivered, fully valid blocks, and no chain of delivered, fully valid b
 theorem tip_is_best (ops : List Op) (hdo : deliveryOnly ops) (hwf : WF (mentioned ops))
     (hev : (run ops).evicted = []) : IsBest (delivered ops) (run ops).tip :=
   run_isBest ops hdo hwf hev
+
+/-- The eviction hypothesis is automatically met by histories with at most 100 block deliveries
+(the orphan pool cannot overflow): for those, `tip_is_best` needs no assumption about the run. -/
+theorem tip_is_best_small (ops : List Op) (hdo : deliveryOnly ops) (hwf : WF (mentioned ops))
+    (hsmall : blockCount ops ≤ maxOrphans) : IsBest (delivered ops) (run ops).tip :=
+  run_isBest ops hdo hwf (run_noEvict ops hdo hsmall)
 
 /-- First-seen rule ("ties going to the chain that became active first"): one more delivery either
 leaves the whole active chain as it is or moves it to a chain of STRICTLY greater cumulative work;
